@@ -5,11 +5,13 @@ import (
 	"verifsim/dkgsim"
 	"verifsim/engine"
 	"verifsim/prgcrash"
+	"verifsim/thrnet"
 )
 
 func main() {
 	engine.Main(map[string]engine.Engine{
 		"prgcrash": prgcrash.Engine{},
 		"dkgsim":   dkgsim.Engine{},
+		"thrnet":   thrnet.Engine{},
 	})
 }
